@@ -272,7 +272,8 @@ pub fn threshold_of(s: &str) -> f64 {
     }
 }
 
-pub const PUNCT: [&str; 20] = [
+pub const PUNCT: [&str; 23] = [
+    "\u{1}", "\u{1f}", "\u{7f}",
     ",", ".", ";", "…", "!", "?", ":", ", ", ". ", " ; ", "...", "--", "'", "''", "(", "/", "\u{2010}", "\u{2011}", "–", "—",
 ];
 pub const GLUE: [&str; 8] = [" ", "  ", "\t", "-", "\n", "\u{a0}", "", "\u{2003}"];
